@@ -219,3 +219,4 @@ def run(ctx, rep):
     # ---- (a) ---------------------------------------------------------------------
     if _visit is not None:
         _visit.run(F, rep, "C07.visit")
+        _visit.deep(F, rep, "C07.visit-deep")
